@@ -40,7 +40,9 @@ def uses (r e : DEntry) : Bool :=
   !e.syntaxError &&
   match r.kind with
   | .recording => e.sels.any fun s => s.name = r.name || s.nameEq.contains r.name
-  | .alerting => e.sels.any fun s => (s.name = "ALERTS" || s.name = "ALERTS_FOR_STATE") && s.alertnameEq.contains r.name
+  | .alerting => e.sels.any fun s =>
+      (s.name = "ALERTS" || s.name = "ALERTS_FOR_STATE" || s.nameEq.contains "ALERTS" || s.nameEq.contains "ALERTS_FOR_STATE") &&
+      s.alertnameEq.contains r.name
   | .invalid => false
 
 def keyOf (e : DEntry) : DKey := (e.path, e.exprLine, e.nameRank)
